@@ -1701,15 +1701,13 @@ impl<T: TypeConfig> RaftRoleState for LeaderState<T> {
                 .calculate_majority_matched_index(
                     self.current_term(),
                     self.commit_index(),
-                    self.match_index
+                    // Every voter counts (match index 0 if it has not acked yet), as in
+                    // calculate_new_commit_index: one ack out of five is not a quorum.
+                    self.cluster_metadata
+                        .replication_targets
                         .iter()
-                        .filter(|(id, _)| {
-                            self.cluster_metadata.replication_targets.iter().any(|n| {
-                                n.id == **id
-                                    && n.role != d_engine_proto::common::NodeRole::Learner as i32
-                            })
-                        })
-                        .map(|(_, idx)| *idx)
+                        .filter(|n| n.role != d_engine_proto::common::NodeRole::Learner as i32)
+                        .map(|n| self.match_index.get(&n.id).copied().unwrap_or(0))
                         .collect(),
                 )
                 .is_some();
